@@ -38,11 +38,15 @@ RecvStep(c, x, w) ==
 Lower(c, x)   == Max(x.first, x.hi - c.size)
 Missing(c, x) == IF ~x.bound \/ ~x.started THEN {}
                  ELSE {t \in (Lower(c, x) + 1) .. (x.hi - c.skip) : t \notin x.recv}
-Count(x, t)   == IF t \in DOMAIN x.cnt THEN x.cnt[t] ELSE 0
-Req(c, x)     == {t \in Missing(c, x) : c.max = 0 \/ Count(x, t) < c.max}
+\* Per-packet NACK counters, kept saturated at c.max (only "count < max" is observable): x.cnt is a sequence of
+\* sets, x.cnt[k] = the missing numbers that have been counted at least k times (k = 1 .. c.max).
+\* (A function number -> count made trace validation quadratic for windows of 2^15 numbers.)
+Level(x, k)   == IF k >= 1 /\ k <= Len(x.cnt) THEN x.cnt[k] ELSE {}
+Req(c, x)     == IF c.max = 0 THEN Missing(c, x) ELSE Missing(c, x) \ Level(x, c.max)
 TickStep(c, x) ==
   IF ~x.bound \/ ~x.started \/ c.max = 0 THEN x
-  ELSE [x EXCEPT !.cnt = [t \in Missing(c, x) |-> Count(x, t) + 1]]
+  ELSE LET m == Missing(c, x) IN
+       [x EXCEPT !.cnt = [k \in 1 .. c.max |-> IF k = 1 THEN m ELSE m \cap Level(x, k - 1)]]
 
 \* What one tick writes: for every stream with a non-empty request set exactly one NACK whose
 \* expanded pairs are the residues of Req.
@@ -60,5 +64,6 @@ FullSpan(c, x) == x.bound /\ x.started /\ (x.hi - c.skip) - LC(c, x) >= H
 \* the code keys its per-packet NACK counters by 16-bit number and prunes them only at ticks: when the window moves by a whole
 \* cycle between two ticks, a number that is missing now inherits the count of the number 2^16 before it
 CountAlias(c, x) == /\ c.max > 0 /\ x.bound /\ x.started
-                    /\ \E t \in Missing(c, x) : t \notin DOMAIN x.cnt /\ \E u \in DOMAIN x.cnt : u # t /\ Res(u) = Res(t)
+                    /\ LET counted == {Res(u) : u \in Level(x, 1)} IN
+                       \E t \in Missing(c, x) \ Level(x, 1) : Res(t) \in counted
 =============================================================================
